@@ -15,6 +15,9 @@ func ValidateGenesis(gs GenesisState) error {
 	}
 	// validate each claim
 	for _, claim := range gs.Claims {
+		// a stored (exported) claim carries the expiration height the chain assigned to it;
+		// only a claim message must leave it unset
+		claim.ExpirationHeight = 0
 		if err := claim.ValidateBasic(); err != nil {
 			return err
 		}
